@@ -573,6 +573,9 @@ func (w *World) dump() (state string, cfg string, bad string) {
 	return state, w.cfgStr(st), bad
 }
 
+// Dump: the implementation state and configuration in the model's syntax (for the restart simulation of C18).
+func (w *World) Dump() (state string, cfg string, bad string) { return w.dump() }
+
 // ---------------------------------------------------------------------------------------------
 // running one op on the real code
 
